@@ -333,8 +333,10 @@ def run_check(pid, tier, seed, replay=None):
         p = write_replay(pid, nrep, {"property": pid, "tier": tier, "seed": seed, "kind": "model_disagrees",
                                      "note": "the Lean model and the implementation differ on these inputs; the theorems no longer describe the code",
                                      "disagreements": disagreements[:20], "count": len(disagreements)})
-        # a disagreement is a concrete input, but not necessarily one on which the *property* fails
-        suffix = "" if new else " no-failing-input-found"
+        # a disagreement is a concrete input, but not necessarily one on which the *property* fails - unless the model's
+        # answer is itself the documented verdict (C04: rule model proved equivalent to the documented condition; C05: field
+        # model proved equivalent to the documented format), in which case the disagreeing input is the failing input
+        suffix = "" if (new or cfg.get("disagreement_is_failing_input")) else " no-failing-input-found"
         lines.append(f"VIOLATION property={pid} replay={p}{suffix}")
     if broken:
         nrep += 1
